@@ -13,6 +13,7 @@ static bool replay_case_prop(Context& cx, const Fn* f, const std::string& op, co
 #include "d_math_c12.hpp"
 #include "d_math_c13.hpp"
 #include "d_math_c14.hpp"
+#include "d_math_c17.hpp"
 
 template <class T>
 static bool replay_case_prop(Context& cx, const Fn* f, const std::string& op, const Target& tg, const xsv_entry* e, const T* xs, const T* ys, mfn::Arbiter& arb)
@@ -24,6 +25,8 @@ static bool replay_case_prop(Context& cx, const Fn* f, const std::string& op, co
         return c13_replay<T>(cx, op, tg, e, xs, ys, arb);
     if (p == "C14")
         return c14_replay<T>(cx, op, tg, e, xs, ys);
+    if (p == "C17")
+        return c17_replay<T>(cx, op, tg, e, xs, ys);
     if (!f)
         return true;
     FnT ft;
